@@ -12,6 +12,9 @@ STAGE_MODE = {"core": ("CoreTyping", "plain"), "coreuniq": ("CoreTyping", "uniqu
               "axcut": ("AxCutTyping", "named"), "axcutlin": ("AxCutTyping", "linear")}
 
 
+EFFECTS_LIMIT = None     # None: the whole effect-order corpus; n: about n files of it
+
+
 def corpus_cases():
     out = []
     for f in sorted(glob.glob(os.path.join(REPO, "examples", "*", "*.sc"))):
@@ -21,7 +24,12 @@ def corpus_cases():
         m = re.search(r"test_args\s*=\s*\[(.*?)\]", a)
         args = [int(x.strip().strip('"')) for x in m.group(1).split(",") if x.strip()] if m else []
         out.append(({"name": nm, "kind": "fun", "path": f}, [args]))
+    eff = 0
     for f in sorted(glob.glob(os.path.join(VERIF, "corpus", "*", "*.sc"))):
+        if "/effects/" in f:
+            eff += 1
+            if EFFECTS_LIMIT == 0 or EFFECTS_LIMIT is not None and (eff - 1) % max(1, 59 // max(1, EFFECTS_LIMIT)) != 0:
+                continue          # a spread sample of the effect-order corpus for the checks that are not about evaluation order
         nm = "cp_" + os.path.basename(f)[:-3]
         out.append(({"name": nm, "kind": "fun", "path": f}, [[2]] if "/loops/" in f else [[]]))
     return out
